@@ -46,42 +46,38 @@ def same_mod_1d_size(a, b):
     return norm(a) == norm(b)
 
 
-def pow2_guard(ctx, fi, rule):
-    g = None
-    for ifn, test, excs in find_raise_guards(fi):
-        if names_in(test) == {"M"}:
-            ge = GuardEval(ctx.pkg, fi, "M")
-            vals = {m: ge.holds(test, Fraction(m)) for m in range(1, 65)}
-            if all(v is not None for v in vals.values()):
-                g = (ifn, test, excs, vals)
-    if g is None:
-        ctx.violation(rule, fi, fi.node, f"{fi.qualname}: power-of-two guard on M", "no guard over M found: orders that are not powers of two are not rejected")
-        return
-    ifn, test, excs, vals = g
-    wrong = [m for m, v in vals.items() if v != (m & (m - 1) != 0)]
-    if wrong:
-        ctx.violation(rule, fi, ifn, f"{fi.qualname}: power-of-two guard `{src_of(test)}`", f"guard decides wrongly for M in {wrong[:6]} (must reject exactly the non powers of two)")
-    elif "ValueError" not in excs:
-        ctx.violation(rule, fi, ifn, f"{fi.qualname}: power-of-two guard", f"raises {excs}, documented ValueError")
-    else:
-        ctx.holds(rule, fi, ifn, f"{fi.qualname}: power-of-two guard `{src_of(test)}`", "rejects exactly the non powers of two in 1..64 -> ValueError")
+def pow2_guard(ctx, fi, rule, param_classes=None):
+    from ..rules import check_pow2_guard
+    check_pow2_guard(ctx, rule, fi, param_classes=param_classes)
 
 
 def length_guard(ctx, fi, it, rule, unit, what):
-    ok = None
-    for o in it.outcomes:
-        if o.kind == "raise" and o.exc == "ValueError" and o.conds:
-            src = o.conds[-1][0]
-            for ifn, test, excs in find_raise_guards(fi):
-                if src_of(test) == src:
-                    v = Interp(ctx.pkg, param_classes=it.param_classes, assumptions=it.assumptions).eval(test, State(dict(it.final_env or {})), fi, 0)
-                    if isinstance(v, Form):
-                        a = v.single_atom()
-                        if a and a[0] == "fn" and a[1] == "ne" and a[2][1] == Form.num(0):
-                            lhs = a[2][0].single_atom()
-                            if lhs and lhs[0] == "fn" and lhs[1] == "mod" and lhs[2][1] == unit:
-                                ok = ifn
-    ctx.check(rule, ok is not None, fi, ok or fi.node, f"{fi.qualname}: {what}", "length % symbol size != 0 -> ValueError", f"no ValueError guard on `length % {unit!r} != 0`: partial symbols reach the reshape")
+    """whole-symbol lengths only: decided by interpreting the function with concrete M (and sps) and a concrete record length -
+    the length is only tested through `size % unit`, so one multiple and two non-multiples of the unit decide it"""
+    from ..rules import _concrete_run
+    pc = dict(it.param_classes)
+    is_sdd = "input" in pc and pc["input"] == "electrical_signal"
+    size_atom = S("input.signal.size") if is_sdd else S("input.data.size")
+    m, sps = 4, 4
+    u = m * sps if is_sdd else m
+    probs, where = [], fi.node
+    for n, ok_len in ((2 * u, True), (u, True), (2 * u - 1, False), (u + 1, False), (u // 2, False)):
+        val = [(size_atom, n), (S("gv.sps"), sps)]
+        if not is_sdd:
+            val.append((mk_fn("len", [D]), n))
+        rej, e, out, _it = _concrete_run(ctx.pkg, fi, {"M": Form.num(m)}, dict(it.assumptions), pc, val)
+        if ok_len and rej:
+            probs.append(f"a record of {n} = {n // u} whole symbol(s) is rejected ({e})")
+            where = out.node if out is not None else where
+        elif not ok_len and not rej:
+            probs.append(f"a record of {n} samples (not a multiple of {u}) is accepted: partial symbols reach the reshape")
+            where = out.node if out is not None else where
+        elif not ok_len and e != "ValueError":
+            probs.append(f"a record of {n} samples raises {e}, documented ValueError")
+            where = out.node if out is not None else where
+        elif not ok_len and where is fi.node and out is not None:
+            where = out.node
+    ctx.check(rule, not probs, fi, where, f"{fi.qualname}: {what}", "length % symbol size != 0 -> ValueError; whole symbols accepted", "; ".join(probs[:2]))
 
 
 def run(ctx):
@@ -138,7 +134,7 @@ def run(ctx):
         ctx.unknown("C12.3", fd, fd.node, "PPM_DECODER", f"{len(rets)} return paths")
     # ---------------------------------------------------------------- HDD
     fh = pkg.func("ppm.HDD")
-    pow2_guard(ctx, fh, "C12.1")
+    pow2_guard(ctx, fh, "C12.1", {"input": "binary_sequence"})
     it = Interp(pkg, param_classes={"input": "binary_sequence"})
     it.run(fh)
     length_guard(ctx, fh, it, "C12.1", M, "whole-symbol length guard")
@@ -176,7 +172,7 @@ def run(ctx):
         ctx.violation("C12.4", fh, fh.node, "HDD multiple-symbol repair", "clear-then-keep-one idiom not found: symbols with several ON slots are not reduced to one of their ON slots")
     # ---------------------------------------------------------------- SDD
     fsd = pkg.func("ppm.SDD")
-    pow2_guard(ctx, fsd, "C12.1")
+    pow2_guard(ctx, fsd, "C12.1", {"input": "electrical_signal"})
     for noise in ("none", "notnone"):
         it = Interp(pkg, param_classes={"input": "electrical_signal"}, assumptions={"input.noise": noise})
         outs = it.run(fsd)
